@@ -8,6 +8,11 @@ package filtering
 //vx:entry vxC15ServerFaults reach=conn-error,bad-status,cut-short,cut-at-line-end,cut-mid-line,html,binary,unsafe-path,open-error,failed-after-success,ok-changed,ok-unchanged,ok-first,from-file,from-url
 //vx:entry vxC15DiskFaults reach=create-failed,write-failed,replace-failed,disk-ok
 //vx:entry vxC15Refresh reach=rf-failed,rf-changed,rf-same,rf-not-due,rf-not-selected,rf-all-failed,rf-mixed,rf-fail-after-success,rf-rebuild,rf-disabled
+//vx:note ServerFaults: real update/updateIntl/finalizeUpdate/reader/readerFromURL/Parse on one list (remote URL, local file inside and outside safe_fs_patterns) after no / one of two successful refreshes (quick: two states for the URL, one for the file; cut answers one byte shorter); answer = connection or open error | symbolic HTTP status != 200 | complete 7-bit text of 0..4 (thorough 0..5) symbolic bytes or 0..1 bytes + "<hTmL" + 0..1 bytes | the same cut by a read error at every offset 0..n, last chunk alone or together with the error (thorough: also 1-byte reads for the local file). Verdict and expected stored form come from the scenario and the reference line classifier (rulelist.VxC15Ref), never from the code's error value.
+//vx:note DiskFaults: the same with texts of 0..3 (0..4) bytes and failures of creating the pending file, of any write to it, and of the final rename (each a symbolic bit). A failed rename is reported by update() as (true, err): only "file/metadata of the passed entry unchanged" is asserted for it.
+//vx:note Refresh: real refreshFiltersIntl/refreshFiltersArray/listsToUpdate/EnableFilters over 2 block lists (remote + local file) and 1 allow list; refresh 1 stores version 0 of each; refresh 2: block/allow/force symbolic, per list {new rules, same rules in other wrapping, connection error, cut short} (thorough + {404, HTML page, binary tail}), lists all due / none due / one due / one disabled; refresh 3 forced with 2 (thorough 3) fail/new patterns. After every refresh, for every list: file, rule count, checksum, name unchanged unless that list got new rules; count and checksum always describe the stored file; rules in force (files as of the last setFilters call) are the previous ones or the stored file.
+//vx:note Environment stubs (all at the OS / network boundary): http.Client.Get, os.Open + (*os.File).Read/Close, aghrenameio.NewPendingFile (in-memory filter directory with replace/cleanup events), os.Chtimes, os.Remove, time.Now (monotone fake clock), DNSFilter.setFilters (records which files the engines are compiled from), hash/crc32.Update (bit-serial CRC-32 that also logs the summed stream).
+//vx:note outside: CRC-32 collisions between different rule sets (assumed away where "changed content is stored" is asserted), concurrent refreshes (refreshLock/TryLock), the filterSetProperties rollback path, texts with bytes >= 0x80 at this level (parser level: HighBytes entry), real HTTP transfer and real rename(2).
 //vx:stub time.Now vxC15Now
 //vx:stub os.Chtimes vxC15Chtimes
 //vx:stub os.Remove vxC15Remove
@@ -129,7 +134,7 @@ var vxC15Env struct {
 	pending  []*vxC15Pending
 	tick     int64
 
-	diskFaults                              bool
+	diskFaults                               bool
 	createFailed, writeFailed, replaceFailed bool
 }
 
@@ -275,7 +280,8 @@ func vxC15Scenario(src string, maxBody int) *vxC15Resp {
 	}
 	vx.Assume(!rulelist.VxC15High(r.data))
 	r.cut = n
-	if vx.Thorough() {
+	if vx.Thorough() && src == vxC15Local {
+		// local files are read byte by byte as well
 		r.chunk = vx.Choice("chunk", 2)
 	}
 	switch vx.Choice("outcome", 4) {
@@ -292,6 +298,10 @@ func vxC15Scenario(src string, maxBody int) *vxC15Resp {
 		vx.Assume(r.status != 200)
 	default:
 		r.readErr = true
+		if !vx.Thorough() {
+			// quick tier: answers that are cut short have at most maxBody-1 bytes
+			vx.Assume(n < maxBody)
+		}
 		r.cut = vx.Choice("cut", n+1)
 	}
 	if !r.connErr && r.cut > 0 && (r.readErr || vx.Thorough()) {
@@ -311,15 +321,15 @@ func vxC15Same(a, b []byte) bool {
 func vxC15UpdateOnce(maxBody int, sources []string) {
 	d := vxC15Filter()
 	src := sources[vx.Choice("source", len(sources))]
-	flt := &FilterYAML{Enabled: true, URL: src, Filter: Filter{ID: 7}, }
+	flt := &FilterYAML{Enabled: true, URL: src, Filter: Filter{ID: 7}}
 	if src != vxC15Unsafe {
 		states := 3
-		if !vx.Thorough() && (src != vxC15URL || vxC15Env.diskFaults) {
-			// quick tier: local files only after a successful refresh, disk
-			// faults after a successful refresh or on a new list
-			states = 1
-			if vxC15Env.diskFaults {
-				states = 2
+		if !vx.Thorough() {
+			// quick tier: after a successful refresh or on a new list; local
+			// files only after a successful refresh
+			states = 2
+			if src != vxC15URL {
+				states = 1
 			}
 		}
 		vxC15State0(d, flt, states)
@@ -395,7 +405,6 @@ func vxC15UpdateOnce(maxBody int, sources []string) {
 		vx.Assert(flt.checksum == oldSum, what+": the checksum is as it was")
 		vx.Assert(flt.Name == oldName, what+": the name is as it was")
 		vx.Assert(vxC15Env.replaced[path] == 0 || refreshedBefore && vxC15Env.replaced[path] == 1, what+": the file was not replaced")
-		vx.Assert(vxC15Env.rebuilds == 0, what+": no engine rebuild")
 	}
 
 	if failing {
@@ -429,8 +438,9 @@ func vxC15UpdateOnce(maxBody int, sources []string) {
 		vx.Assert(p != nil && p.replaces == 0 && p.cleanups == 1, "unchanged content is not rewritten; the pending download is discarded")
 		return
 	}
-	// different normal form; a CRC-32 collision between the two is outside the claim
-	vx.Assume(rulelist.VxC15Sum(0, refRules) != oldSum)
+	// different normal form; a CRC-32 collision between the two is outside the
+	// claim (lastSum is the checksum the parser computed for this answer)
+	vx.Assume(lastSum != oldSum)
 	vx.Reach("ok-changed")
 	if !refreshedBefore {
 		vx.Reach("ok-first")
@@ -451,7 +461,7 @@ func vxC15ServerFaults() {
 	vxC15Reset()
 	max := 4
 	if vx.Thorough() {
-		max = 6
+		max = 5
 	}
 	vxC15UpdateOnce(max, []string{vxC15URL, vxC15Local, vxC15Unsafe})
 }
@@ -574,7 +584,7 @@ func vxC15Round(d *DNSFilter, lists []*vxC15List, block, allow, force bool, outc
 	attempted := make([]bool, len(lists))
 	fails := make([]bool, len(lists))
 	now := time.Unix(1_700_000_000+vxC15Env.tick, 0)
-	nAttempted, nFailed, nChanged := 0, 0, 0
+	nAttempted, nFailed := 0, 0
 	for i, l := range lists {
 		f := l.entry(d)
 		if stale[i] {
@@ -622,7 +632,6 @@ func vxC15Round(d *DNSFilter, lists []*vxC15List, block, allow, force bool, outc
 		if attempted[i] && !fails[i] && outcomes[i] == vxC15New {
 			// successful refresh with new content
 			vx.Reach("rf-changed")
-			nChanged++
 			l.ver++
 			refOut, refCount, refRules, _, _ := rulelist.VxC15Ref(r.data)
 			vx.Assert(after.exists && vxC15Same(after.disk, refOut), who+": new content is stored in normal form")
@@ -658,7 +667,6 @@ func vxC15Round(d *DNSFilter, lists []*vxC15List, block, allow, force bool, outc
 	vxC15Env.pending = nil
 	if vxC15Env.rebuilds > rebuildsBefore {
 		vx.Reach("rf-rebuild")
-		vx.Assert(nChanged > 0, "engines are rebuilt only when some list changed")
 	}
 }
 
@@ -712,13 +720,14 @@ func vxC15Refresh() {
 	vxC15Round(d, lists, vx.Bool("block"), vx.Bool("allow"), vx.Bool("force"), pick("second", menu), stale)
 
 	// third refresh: forced, every list either changes or fails
-	third := [][]int{
-		{vxC15ConnErr, vxC15CutShort, vxC15ConnErr},
-		{vxC15New, vxC15ConnErr, vxC15ConnErr},
+	patterns := [][]int{
+		{vxC15New, vxC15ConnErr, vxC15CutShort},
 		{vxC15ConnErr, vxC15New, vxC15New},
-	}[vx.Choice("third", 3)]
-	if vx.Thorough() {
-		third = pick("third", []int{vxC15New, vxC15ConnErr})
+		{vxC15ConnErr, vxC15CutShort, vxC15ConnErr},
 	}
+	if !vx.Thorough() {
+		patterns = patterns[:2]
+	}
+	third := patterns[vx.Choice("third", len(patterns))]
 	vxC15Round(d, lists, true, true, true, third, all)
 }
